@@ -55,7 +55,11 @@ def run_property(prop, tier, seed, only_stage=None, quiet=False):
             sr = st['custom']()
         else:
             try:
-                binary = build.ensure_built(st['variant'])
+                if (st.get('tool') or '').startswith('miri:'):
+                    build.ensure_miri(st['tool'][5:])
+                    binary = 'miri'
+                else:
+                    binary = build.ensure_built(st['variant'])
             except build.BuildError as e:
                 if st.get('build_failure_is_violation'):
                     pr = Problem({prop}, 'configuration does not build: ' + st['variant'], e.first_error())
@@ -71,7 +75,7 @@ def run_property(prop, tier, seed, only_stage=None, quiet=False):
                     for c in g:
                         group_of[id(c)] = g
             sr = runner.run_stage(st['variant'], groups, tool=st.get('tool'), prefix=st.get('prefix'),
-                                  env=st.get('env'), timeout=st.get('timeout', 600), binary=binary, mem=st.get('mem', 'default'), keep_raw=st.get('keep_raw', False))
+                                  env=st.get('env'), timeout=st.get('timeout', 600), binary=binary, mem=st.get('mem', 'default'), keep_raw=st.get('keep_raw', False), shard_min=st.get('shard_min', 200))
             if st.get('post'):
                 st['post'](sr)
         if not quiet:
